@@ -44,6 +44,16 @@ CHECKS.update({
     'C02': dict(category='model_checking', text='TLC checks the payload outcome table (all-or-nothing, count gate at exactly the limit, order) over all piece sequences up to limit+2 for scaled limits; the real Payload is observed on packet lists of length 0..18, 25, 40 mixing text / JSON / binary / empty packets (encode must equal the reference join, decode must return the reference packets in order), on the form-encoded d= variant of each, on every string up to length 4 (quick) / 5 (thorough) over a 15-symbol adversarial alphabet incl. the separator, on random longer strings, and with the limit patched to 1..3; each observation is abstracted by the stdlib reference and validated by TLC against EioCodec; decode CPU time is watched (2 s).', note='Trusted: TLC, CPython json/base64/urllib (reference). Hang detection uses process CPU time (the one place wall-ish time is used).', technique='TLA+ spec EioCodec (payload table): TLC exhaustive + TLC trace validation of observations of the real Payload', design_ref='6 (C02), 3.6', engine='tlc-table'),
 })
 
+TABLE_NOTE = ('Trusted: TLC + Json module; the deterministic gateway callers in harness/world.py; for C19 the stdlib gzip/zlib and '
+              'the JavaScript string-literal evaluator harness/jslit.py. The abstraction of a concrete request into its table cell is '
+              'done by the harness (by construction of the request).')
+CHECKS.update({
+    'C11': dict(category='model_checking', text='TLC checks the OPEN-handshake facts of EioHttp over every cell (upgrades offered only if an upgrade would be accepted); open requests are then issued to fresh real servers for single-factor sweeps of ping_interval (fractional, with grace), ping_timeout, max_http_buffer_size, allow_upgrades, transports, websocket availability, 5 cookie forms (name, dict with string / boolean / callable attributes), 9 connect-handler outcomes (None, True, False, 0, empty, text, dict, list, exception), polling and websocket opens, JSONP, handler sending during connect, the complete product of the upgrade-relevant factors and a random sample of the full product; each reply is reduced to a record (OPEN first, sid = handler sid, exact milliseconds, maxPayload, upgrades list, exact cookie header, exactly one session, 401 body, id addressable afterwards or not) and TLC validates every record against EioHttp.', note=TABLE_NOTE, technique='TLA+ spec EioHttp (OpenReply / UpgradesOffered): TLC over all cells + TLC validation of real open replies', design_ref='6 (C11), 3.4', engine='tlc-table'),
+    'C12': dict(category='model_checking', text='TLC checks the admission facts (refused => no effect and 400/405, method gate, opens need version 4, dead ids refused) over all 10 080 cells of EioHttp!Admit (method x EIO x transport x sid kind x upgrade headers x JSONP index x configured transports); each cell (thorough: all reachable ones; quick: all (method, sid kind, headers, configuration) combinations with single-factor sweeps of the rest plus a 600-cell sample) is issued to a fresh real server driven to the named session kind (live polling, live upgraded, mid-upgrade, closed-not-reaped, unknown, rejected), the effect is classified from the difference of the complete projected state before/after, and TLC validates status and effect of every record against the table.', note=TABLE_NOTE, technique='TLA+ spec EioHttp (Admit): TLC over all cells + TLC validation of the real servers\' decision per cell', design_ref='6 (C12), 3.4', engine='tlc-table'),
+    'C13': dict(category='model_checking', text='TLC checks the origin-gate facts (never over-grant, empty list disables everything, requests without Origin unaffected, default = own host incl. forwarded) over every cell of EioHttp!OriginGate; ~4 200 real requests (7 cors_allowed_origins forms x credentials x ~27 Origin values incl. 12 near-misses of the allowed origin, forwarded-header combinations x open / poll / post / OPTIONS / upgrade / websocket-open x 2 servers) are reduced to (blocked, any state change, ACAO present and equal to the Origin, ACAC) and validated by TLC against the table; blocked requests must leave the complete projected state unchanged.', note=TABLE_NOTE, technique='TLA+ spec EioHttp (OriginGate): TLC over all cells + TLC validation of real responses', design_ref='6 (C13), 3.4', engine='tlc-table'),
+    'C19': dict(category='model_checking', text='TLC checks that Compress declares an encoding only if offered, enabled and at threshold; real servers then answer sequences of requests on one instance (polls carrying 19 payload classes incl. quotes, backslashes, line terminators, U+2028/9, control, non-BMP, binary; POST acks; 400s; JSONP polls) under 17 Accept-Encoding shapes, compression on/off and thresholds just below / at / above the body size; the harness undoes the declared encoding with stdlib gzip/zlib, evaluates the JSONP literal by JavaScript rules, and TLC validates declared encoding, losslessness and one-statement JSONP per record.', note=TABLE_NOTE, technique='TLA+ spec EioHttp (Compress, JSONP): TLC over cells + TLC validation of real responses', design_ref='6 (C19), 3.4', engine='tlc-table'),
+})
+
 NOT_YET = 'check not built yet at this commit (construction order in DESIGN.md section 8)'
 
 
